@@ -95,6 +95,19 @@ def check(run: Run) -> None:
                 run.violation("R11.2", fi.module, fi.qualname, rn.ast, "an _attempt_* repair returns something other than (original value, False) or (new value, True)")  # type: ignore[arg-type]
     # repair_value / _repair_ast_node apply only when the callee reported a repair
     rv = mod.func("repair_value")
+    # every attempt is made on the field's own (running) value: the first argument is the value parameter or the local that
+    # starts as it and is only ever replaced by an attempt's result
+    rv_param = rv.node.args.args[0].arg  # type: ignore[attr-defined]
+    running = {rv_param}
+    for n in walk_no_nested(rv.node):
+        if isinstance(n, ast.Assign) and len(n.targets) == 1 and isinstance(n.targets[0], ast.Name) and is_name(n.value, rv_param):
+            running.add(n.targets[0].id)
+    for c in walk_no_nested(rv.node):
+        if isinstance(c, ast.Call) and isinstance(c.func, ast.Name) and c.func.id.startswith("_attempt_"):
+            ok = bool(c.args) and isinstance(c.args[0], ast.Name) and c.args[0].id in running
+            run.instance("R11.2", mod.loc(c), f"repair_value: `{norm(c)}` works on the field's own value", ok=ok)
+            if not ok:
+                run.violation("R11.2", mod, rv.qualname, c, "a repair attempt is made on something other than the field's own value: what is logged as `before` (and compared with the constraint) is not what the document holds")
     for n in walk_no_nested(rv.node):
         if isinstance(n, ast.Assign) and any(is_name(t, "current_value") for t in n.targets) and not is_name(n.value, rv.node.args.args[0].arg):  # type: ignore[attr-defined]
             cfg = CFG(rv.node)
